@@ -10,7 +10,8 @@ from harness.C01 import TAGS, SIZES, check_tag, T1
 from pycomm3.tag import Tag
 
 REG = Registry("C03")
-BOUNDS = {"quick": {"requests per call": "1..3 (each slot a symbolic choice of 10 read / 11 write request kinds, first slot split over workers)", "memory": "D1, DA symbolic"},
+BOUNDS = {"quick": {"requests per call": "1..3 (each slot a symbolic choice of 10 read / 11 write request kinds, first slot split over workers)", "memory": "D1, DA symbolic",
+                    "controller configurations": "multi-service capable (default) and Micro800 (one request per packet; 2 requests per call over 5 read / 5 write kinds, 3 in the thorough tier)"},
           "thorough": {"requests per call": "1..4"}}
 OUTSIDE = ["longer request lists", "request kinds outside the enumerated table"]
 TRUSTED = ["vlib.ref.logix reference controller", "vlib.ref.values"]
@@ -36,12 +37,14 @@ READS = [
 ]
 
 
-def _mk_read(n, first):
+def _mk_read(n, first, table=None, micro800=False):
+    READS = table or globals()["READS"]
+
     def body(xs, m):
         try:
             mem = {"D1": list(m[0:4]), "DA": list(m[4:20])}
             target = scen.std_project(mem=mem)
-            d = scen.make_driver(target, tags=TAGS)
+            d = scen.make_driver(target, tags=TAGS, micro800=micro800, rev=12 if micro800 else None)
             ch = [READS[first]] + [READS[x] for x in xs]
             res = d.read(*[c[0] for c in ch])
             if n == 1:
@@ -63,6 +66,8 @@ def _mk_read(n, first):
                     v = check_tag(tg, c[0].split("{")[0], c[2], sym.mem)
                     if v != "ok":
                         return c[0] + ":" + v
+            if micro800 and any(e[1] == 0x0A for e in target.log):
+                return "multi-service-on-micro800"
             return "ok"
         except Exception as e:
             return "exc:" + type(e).__name__ + ":" + str(e)[:80]
@@ -75,6 +80,15 @@ for n in (1, 2, 3):
                 pre=vec_pre(n - 1, lambda xs, m: len(m) == 20 and all(0 <= x < len(READS) for x in xs), extra=(("m", bytes),)),
                 tier="quick", timeout=600 if n >= 3 else 180, weight=n, funcs=F,
                 desc=f"{n} requests: first = {READS[first][0]!r}, the others symbolic choices over {len(READS)} request kinds (valid and invalid, duplicates allowed); memory of D1/DA symbolic")
+
+
+READS_M = [READS[0], READS[1], READS[2], READS[7], READS[5]]
+for n in (2, 3):
+    for first in range(len(READS_M)):
+        REG.add(f"read-micro800/n{n}/first{first}", vec_fn(n - 1, _mk_read(n, first, READS_M, True), extra=(("m", bytes),)),
+                pre=vec_pre(n - 1, lambda xs, m: len(m) == 20 and all(0 <= x < len(READS_M) for x in xs), extra=(("m", bytes),)),
+                tier="quick" if n <= 2 else "thorough", timeout=600 if n >= 3 else 180, weight=n, funcs=F + ["logix_driver._read_build_single_request"],
+                desc=f"Micro800 (no multi-service packets): {n} read requests, first = {READS_M[first][0]!r}, the others symbolic choices over {len(READS_M)} kinds (valid and invalid, duplicates allowed); memory symbolic")
 
 
 def _mk_read4(first, second):
